@@ -72,6 +72,30 @@ def install_validate(w):
                on_raise={"ValidationAbortedError": ["len(errors) >= max_errors",
                                                    "len(errors) == old(len(errors))"]},
                modifies=[], props={"C12"})
+    # validate(): the limit handed to the callback is the caller's n (100 when none is given); the
+    # traversal may run the callback any number of times (rely: nothing else holds `errors`, a
+    # finite check of props/C12.py), so at most n errors are collected before the abort notice
+    w.contract("graphql.type.validate.assert_valid_schema", params={"schema": "dyn"},
+               raises=["TypeError"], modifies=[], assumed=True)
+    w.contract("graphql.utilities.type_info.TypeInfoVisitor.__init__",
+               params={"type_info": "dyn", "visitor": "dyn"}, raises=[],
+               modifies=["self.type_info", "self.visitor", "self.enter_leave_map"], assumed=True)
+    w.contract("graphql.language.visitor.ParallelVisitor.__init__", params={"visitors": "dyn"},
+               raises=[], modifies=["self.visitors", "self.skipping", "self.enter_leave_map"],
+               assumed=True)
+    w.contract(f"{VV}.validate",
+               params={"schema": "dyn", "document_ast": "dyn", "rules": "opt:opaque",
+                       "max_errors": "opt:int", "hide_suggestions": "bool"},
+               returns=("list", "dyn"),
+               requires=["max_errors is None or max_errors >= 0"],
+               ensures=["implies(max_errors is None, len(result) <= 101)",
+                        "implies(max_errors is not None, len(result) <= max_errors + 1)"],
+               raises=["TypeError", "Exception"], modifies=[],
+               rely={"visit": {"closure": "on_error", "inv": ["len(errors) <= max_errors"]}},
+               havoc_stmts=["type_info = TypeInfo(schema)",
+                            "context = ValidationContext(schema, document_ast, type_info, on_error, hide_suggestions)",
+                            "visitors = [rule(context) for rule in rules]"],
+               props={"C12"})
 
 
 _install = install
